@@ -543,6 +543,7 @@ func runShared(c *core.Case) {
 				}
 				mu.Unlock()
 			}
+			var held, heldCopy []byte
 			for it := 0; it < iters; it++ {
 				v := Shared{ID: int64(g)<<32 | int64(it), Name: fmt.Sprintf("g%d-i%d-%s", g, it, rr.ASCIIString(0, 40)), Tags: []string{rr.ASCIIString(1, 5), rr.ASCIIString(1, 5)}, Attrs: map[string]int64{}}
 				for k := rr.Intn(12); k > 0; k-- {
@@ -551,8 +552,18 @@ func runShared(c *core.Case) {
 				if rr.Bool() {
 					v.Sub = &Shared{ID: -v.ID, Name: v.Name + "/sub", Attrs: map[string]int64{"k": int64(it)}}
 				}
+				if it%8 == 3 {
+					v.Name += strings.Repeat("L", 70000) // an output beyond 64 KiB
+				}
+				// what an earlier call returned stays what it was
+				if held != nil && !bytes.Equal(held, heldCopy) {
+					report(fmt.Sprintf("the bytes returned by json.Marshal in goroutine %d changed after later calls (%d bytes)", g, len(held)))
+				}
 				// json
 				b, err := json.Marshal(&v)
+				if it%8 == 3 || held == nil {
+					held, heldCopy = b, append([]byte(nil), b...)
+				}
 				var back Shared
 				if err == nil {
 					err = json.Unmarshal(b, &back)
@@ -571,6 +582,20 @@ func runShared(c *core.Case) {
 				}
 				if err != nil || !sameShared(&v, &back) || proto.Size(&v) != len(pb) {
 					report(fmt.Sprintf("proto round trip of goroutine %d iteration %d gives another value (err %v, size %d, len %d)", g, it, err, proto.Size(&v), len(pb)))
+				}
+				// a decode that fails inside a map entry, then entries without key / without value:
+				// what one call leaves in pooled scratch must not reach the next caller
+				bad := []byte{0x22, 0x0a, 0x0a, 0x03, 'b', 'a', 'd', 0x10, 0x07, 0x1a, 0x05, 0x00}
+				var sink Shared
+				if err := proto.Unmarshal(bad, &sink); err == nil {
+					report("proto.Unmarshal accepted a map entry with a truncated member")
+				}
+				val := int64(g*1000 + it)
+				nokey := protoEntry(nil, &val)
+				noval := protoEntry([]byte(fmt.Sprintf("k%d", g)), nil)
+				var kl Shared
+				if err := proto.Unmarshal(append(nokey, noval...), &kl); err != nil || len(kl.Attrs) != 2 || kl.Attrs[""] != val || kl.Attrs[fmt.Sprintf("k%d", g)] != 0 {
+					report(fmt.Sprintf("proto map entries without key / without value decode to %v (err %v) in goroutine %d iteration %d, want map[\"\":%d k%d:0]", kl.Attrs, err, g, it, val, g))
 				}
 				// thrift
 				for _, p := range []thrift.Protocol{tCmp, tBin} {
@@ -599,6 +624,24 @@ func runShared(c *core.Case) {
 	}
 	c.Count("shared.round-trips", G*iters*4)
 	c.Distinct(core.Mix(uint64(c.Index), uint64(G)), true)
+}
+
+// protoEntry hand-builds one Attrs entry (field 4) with the key and / or the value present.
+func protoEntry(key []byte, val *int64) []byte {
+	var e []byte
+	if key != nil {
+		e = append(append(e, 0x0a, byte(len(key))), key...)
+	}
+	if val != nil {
+		e = append(e, 0x10)
+		v := uint64(*val)
+		for v >= 0x80 {
+			e = append(e, byte(v)|0x80)
+			v >>= 7
+		}
+		e = append(e, byte(v))
+	}
+	return append([]byte{0x22, byte(len(e))}, e...)
 }
 
 func sameShared(a, b *Shared) bool {
